@@ -4,6 +4,7 @@
 package main
 
 import (
+	"bytes"
 	"encoding/hex"
 	"fmt"
 	"os"
@@ -129,6 +130,21 @@ func decode(h *hz.H, md protoreflect.MessageDescriptor, in []byte, space string,
 			if proto.Unmarshal(append([]byte(nil), in...), g2) == nil {
 				proto.Equal(g, g2)
 				proto.Equal(g2, g)
+				// ... and with a message that differs from it: same known fields, other unknown bytes of the same length
+				// (protobuf-go then parses both unknown sets; whatever the decoder stored there must be parseable)
+				if u := g.ProtoReflect().GetUnknown(); len(u) >= 2 && len(u) < 130 {
+					w := make([]byte, 0, len(u))
+					w = append(w, 0x7a, byte(len(u)-2)) // field 15, length-delimited
+					for len(w) < len(u) {
+						w = append(w, 0x55)
+					}
+					if !bytes.Equal(w, u) {
+						g2.ProtoReflect().SetUnknown(w)
+						step = "Equal(with a message holding other unknown bytes)"
+						proto.Equal(g, g2)
+						proto.Equal(g2, g)
+					}
+				}
 			}
 		}
 	})
